@@ -6,7 +6,10 @@
              but not yet destroyed operations ([OCompl]) and held LeafR completions ([OHeld])
      Part 3  A1 what [stop] does on a live state; A3 losers (when_all / stop_when / when_any) and the leaves under
              a let_value_with_stop_source whose source a LeafR requests
-     Part 4  whole runs: A1, A2 lifted *)
+     Part 4  whole runs: A1, A2 lifted
+     Part 5  the level a let_value_with_stop_source reacts to is its static nesting depth
+     Part 6  (C11) with_scheduler_affinity's hop back cannot be cancelled
+     Part 7  A5: prompt completion *)
 From Coq Require Import ZArith List Bool Lia Arith.
 From V Require Import Calc.Calc2Defs Calc.Ctx2Proofs.
 Import ListNotations.
@@ -1180,6 +1183,9 @@ Qed.
 Definition loser_cond (k : bkind) (o : outcome) : Prop :=
   k = BStopWhen \/ k = BWhenAny \/ (k = BWhenAll /\ forall v, o <> OVal v).
 
+Lemma when_any_first_finisher o : loser_cond BWhenAny o.
+Proof. right. left. reflexivity. Qed.
+
 Lemma ccd_newly k ns i o :
   own_stop ns = false -> loser_cond k o ->
   exists ns2 fin, conc_child_done k ns i o = (ns2, true, fin).
@@ -1326,4 +1332,876 @@ Proof.
       * intros id' Hin. apply in_or_app. right. apply in_or_app. left. auto.
       * intros _. exists (ns_set_own ns true), sc2. split; [reflexivity|]. split; [reflexivity|].
         apply R3. reflexivity.
+Qed.
+
+(* ================================================================================================ *)
+(* Part 4: whole runs                                                                               *)
+(* ================================================================================================ *)
+Definition liftx (Q : tev -> Prop) (x : xev) : Prop := match x with XT t => Q t | _ => True end.
+
+(* reachable states are live, well-formed states, or completed *)
+Definition IL (e : sexpr) (rs : run_state) : Prop :=
+  done_st (r_st rs) \/ live (r_stopped rs) e (r_st rs).
+
+Lemma resL_IL tok e st o : resL tok e st o -> done_st st \/ live tok e st.
+Proof. intros [H1 H2]. destruct o; [left; apply H2; discriminate|right; auto]. Qed.
+
+Lemma absorb_stopped rs st tr o cx : r_stopped (absorb rs (st, tr, o) cx) = r_stopped rs.
+Proof. destruct o; reflexivity. Qed.
+
+Lemma absorb_delta rs st tr o cx (Q : tev -> Prop) :
+  Forall Q tr ->
+  exists d, r_tr (absorb rs (st, tr, o) cx) = r_tr rs ++ d /\ Forall (liftx Q) d.
+Proof.
+  intros HQ. assert (HM : Forall (liftx Q) (map XT tr)).
+  { induction HQ; simpl; constructor; auto. }
+  destruct o as [oc|]; simpl.
+  - eexists. rewrite <- app_assoc. split; [reflexivity|]. apply Forall_app. split; [exact HM|]. repeat constructor.
+  - eexists. split; [reflexivity|exact HM].
+Qed.
+
+Lemma skip_delta rs (Q : tev -> Prop) :
+  exists d, r_tr (skip rs) = r_tr rs ++ d /\ Forall (liftx Q) d.
+Proof. exists [XSkip]. split; [reflexivity|repeat constructor]. Qed.
+
+Definition is_stop_sev (ev : sev) : bool := match ev with EvStop _ => true | _ => false end.
+
+(* one script event: the invariant is kept, the stop flag is updated, and the batch of events it appends consists
+   of leaf starts that see the (new) stop state *)
+Lemma run_ev_l e rs ev :
+  IL e rs ->
+  IL e (run_ev e rs ev) /\
+  r_stopped (run_ev e rs ev) = (r_stopped rs || is_stop_sev ev)%bool /\
+  exists d, r_tr (run_ev e rs ev) = r_tr rs ++ d /\ Forall (liftx (sok e (r_stopped (run_ev e rs ev)))) d.
+Proof.
+  intros HI. unfold run_ev. unfold IL in HI.
+  assert (Leaf : forall rs0 id o cx,
+            r_st rs0 = r_st rs -> r_stopped rs0 = r_stopped rs -> r_tr rs0 = r_tr rs ->
+            let '(r, hit) := leafev e (r_st rs) id o cx in
+            let rs' := if hit then absorb rs0 r cx else skip rs0 in
+            IL e rs' /\ r_stopped rs' = r_stopped rs /\
+            exists d, r_tr rs' = r_tr rs ++ d /\ Forall (liftx (sok e (r_stopped rs))) d).
+  { intros rs0 id o cx E1 E2 E3.
+    destruct (leafev e (r_st rs) id o cx) as [[[st tr] r] hit] eqn:H. cbv zeta.
+    destruct hit.
+    - destruct HI as [HD|HL].
+      + rewrite (leafev_done e _ id o cx HD) in H. discriminate H.
+      + destruct (leafev_l e _ _ _ _ _ _ _ _ _ H HL) as [R T].
+        split; [unfold IL; rewrite absorb_st, absorb_stopped, E2; apply resL_IL in R; exact R|].
+        split; [rewrite absorb_stopped; exact E2|].
+        rewrite <- E3. apply absorb_delta. exact T.
+    - split; [unfold IL; simpl; rewrite E1, E2; exact HI|]. split; [exact E2|].
+      rewrite <- E3. apply skip_delta. }
+  destruct ev as [id o cx|cx|c]; cbn [is_stop_sev].
+  - rewrite orb_false_r. specialize (Leaf rs id o cx eq_refl eq_refl eq_refl).
+    destruct (leafev e (r_st rs) id o cx) as [r hit]. destruct hit.
+    + destruct Leaf as (A & B & C). rewrite B. auto.
+    + destruct Leaf as (A & B & C). simpl in B |- *. auto.
+  - destruct (r_stopped rs) eqn:Est.
+    + split; [unfold IL; simpl; rewrite Est; exact HI|]. split; [simpl; exact Est|].
+      simpl r_stopped. rewrite Est. apply skip_delta.
+    + destruct (stop e (r_st rs) cx) as [[st tr] r] eqn:H.
+      rewrite absorb_stopped. simpl r_stopped.
+      destruct HI as [HD|HL].
+      * rewrite (stop_done e _ cx HD) in H. inv H.
+        split; [left; rewrite absorb_st; exact HD|]. split; [reflexivity|]. exists []. split; [reflexivity|constructor].
+      * destruct (stop_l e _ _ _ _ _ _ H HL) as (R & T & _).
+        split; [unfold IL; rewrite absorb_st, absorb_stopped; apply resL_IL in R; exact R|].
+        split; [reflexivity|].
+        change (r_tr rs) with (r_tr {| r_st := r_st rs; r_stopped := true; r_roots := r_roots rs; r_tr := r_tr rs; r_queue := r_queue rs |}) at 2.
+        apply absorb_delta. exact T.
+  - rewrite orb_false_r. destruct (dequeue c (r_queue rs)) as [[id q']|].
+    + set (rs0 := {| r_st := r_st rs; r_stopped := r_stopped rs; r_roots := r_roots rs; r_tr := r_tr rs; r_queue := q' |}).
+      specialize (Leaf rs0 id (OVal 0%Z) c eq_refl eq_refl eq_refl).
+      destruct (leafev e (r_st rs) id (OVal 0%Z) c) as [r hit]. destruct hit.
+      * destruct Leaf as (A & B & C). rewrite B. auto.
+      * destruct Leaf as (A & B & C). rewrite B. auto.
+    + split; [exact HI|]. split; [reflexivity|]. apply skip_delta.
+Qed.
+
+Lemma run_start_l e pre :
+  IL e (run_start e pre) /\ r_stopped (run_start e pre) = pre /\
+  Forall (liftx (sok e pre)) (r_tr (run_start e pre)).
+Proof.
+  unfold run_start. destruct (start e (root_env pre) 0) as [[st tr] r] eqn:H.
+  destruct (start_l e _ _ _ _ _ H) as [R T]. simpl in R, T.
+  split; [unfold IL; rewrite absorb_st, absorb_stopped; apply resL_IL in R; exact R|].
+  split; [apply absorb_stopped|].
+  destruct (absorb_delta {| r_st := OFin; r_stopped := pre; r_roots := 0; r_tr := []; r_queue := [] |} st tr r 0 _ T)
+    as (d & E & Hd). rewrite E. exact Hd.
+Qed.
+
+Theorem run_live e pre script :
+  IL e (run e pre script).
+Proof.
+  apply run_invariant; [apply run_start_l|]. intros rs ev H. apply run_ev_l. exact H.
+Qed.
+
+(* the stop flag of a run *)
+Lemma fold_stopped e : forall script rs, IL e rs -> r_stopped rs = true ->
+  IL e (fold_left (run_ev e) script rs) /\ r_stopped (fold_left (run_ev e) script rs) = true /\
+  exists d, r_tr (fold_left (run_ev e) script rs) = r_tr rs ++ d /\ Forall (liftx (sok e true)) d.
+Proof.
+  induction script as [|ev script IH]; intros rs HI Hs; simpl.
+  - split; [exact HI|]. split; [exact Hs|]. exists []. rewrite app_nil_r. split; [reflexivity|constructor].
+  - destruct (run_ev_l e rs ev HI) as (HI' & Hs' & d1 & E1 & F1).
+    rewrite Hs in Hs'. simpl in Hs'. rewrite Hs' in F1.
+    destruct (IH _ HI' Hs') as (HI2 & Hs2 & d2 & E2 & F2).
+    split; [exact HI2|]. split; [exact Hs2|]. exists (d1 ++ d2). rewrite E2, E1, app_assoc.
+    split; [reflexivity|]. apply Forall_app. auto.
+Qed.
+
+(* A2: everything started after a stop request starts with a stopped token (unless below unstoppable) *)
+Theorem after_stop_starts_stopped e pre s1 cx s2 :
+  exists d, r_tr (run e pre (s1 ++ EvStop cx :: s2)) = r_tr (run e pre s1) ++ d /\
+            Forall (liftx (sok e true)) d.
+Proof.
+  rewrite run_app.
+  change (fold_left (run_ev e) (EvStop cx :: s2) (run e pre s1))
+    with (fold_left (run_ev e) s2 (run_ev e (run e pre s1) (EvStop cx))).
+  pose proof (run_live e pre s1) as HI.
+  destruct (run_ev_l e _ (EvStop cx) HI) as (HI' & Hs' & d1 & E1 & F1).
+  rewrite orb_true_r in Hs'. rewrite Hs' in F1.
+  destruct (fold_stopped e s2 _ HI' Hs') as (_ & _ & d2 & E2 & F2).
+  exists (d1 ++ d2). rewrite E2, E1, app_assoc. split; [reflexivity|]. apply Forall_app. auto.
+Qed.
+
+Theorem prestopped_starts_stopped e script :
+  Forall (liftx (sok e true)) (r_tr (run e true script)).
+Proof.
+  destruct (run_start_l e true) as (HI & Hs & F0).
+  destruct (fold_stopped e script _ HI Hs) as (_ & _ & d & E & F).
+  unfold run. rewrite E. apply Forall_app. auto.
+Qed.
+
+Lemma sreach_ids e id : In id (sreach e) -> In id (leaf_ids e).
+Proof.
+  induction e; simpl; auto.
+  - destruct (is_unst k); [intros []|auto].
+  - rewrite !in_app_iff. tauto.
+Qed.
+Lemma under_ids e id : In id (under_unst e) -> In id (leaf_ids e).
+Proof.
+  induction e; simpl; auto.
+  - destruct (is_unst k); auto.
+  - rewrite !in_app_iff. tauto.
+Qed.
+Lemma sreach_not_under e id : NoDup (leaf_ids e) -> In id (sreach e) -> ~ In id (under_unst e).
+Proof.
+  induction e; simpl; intros ND H1 H2; try contradiction.
+  - destruct (is_unst k); [contradiction|]. exact (IHe ND H1 H2).
+  - apply in_app_or in H1. apply in_app_or in H2.
+    pose proof (nodup_app_l _ _ _ ND) as ND1. pose proof (nodup_app_r _ _ _ ND) as ND2.
+    destruct H1 as [H1|H1], H2 as [H2|H2]; [exact (IHe1 ND1 H1 H2)| | |exact (IHe2 ND2 H1 H2)].
+    + eapply nodup_app_disj; [exact ND|apply sreach_ids; exact H1|apply under_ids; exact H2].
+    + eapply nodup_app_disj; [exact ND|apply under_ids; exact H2|apply sreach_ids; exact H1].
+Qed.
+
+(* ... stated for the leaves connected to the root's token *)
+Theorem after_stop_connected_start_stopped e pre s1 cx s2 :
+  NoDup (leaf_ids e) ->
+  exists d, r_tr (run e pre (s1 ++ EvStop cx :: s2)) = r_tr (run e pre s1) ++ d /\
+    forall id s sp a b sch c, In (XT (TLeafStart id s sp a b sch c)) d -> In id (sreach e) -> s = true.
+Proof.
+  intros ND. destruct (after_stop_starts_stopped e pre s1 cx s2) as (d & E & F).
+  exists d. split; [exact E|]. intros id s sp a b sch c Hin Hr.
+  rewrite Forall_forall in F. specialize (F _ Hin). simpl in F.
+  destruct F as [_ F]. destruct (F eq_refl) as [F'|F']; [exact F'|].
+  exfalso. eapply sreach_not_under; eassumption.
+Qed.
+
+Theorem prestopped_connected_start_stopped e script id s sp a b sch c :
+  NoDup (leaf_ids e) ->
+  In (XT (TLeafStart id s sp a b sch c)) (r_tr (exec e true script)) -> In id (sreach e) -> s = true.
+Proof.
+  intros ND Hin Hr. apply exec_in_start in Hin.
+  pose proof (prestopped_starts_stopped e script) as F. rewrite Forall_forall in F.
+  specialize (F _ Hin). simpl in F. destruct F as [_ F]. destruct (F eq_refl) as [F'|F']; [exact F'|].
+  exfalso. eapply sreach_not_under; eassumption.
+Qed.
+
+(* once stop was requested, every connected running leaf of the reached state has seen it *)
+Theorem stopped_state_invariant e pre script :
+  r_stopped (run e pre script) = true ->
+  done_st (r_st (run e pre script)) \/
+  (live true e (r_st (run e pre script)) /\ reach_unseen e (r_st (run e pre script)) = []).
+Proof.
+  intros Hs. destruct (run_live e pre script) as [H|H]; [auto|].
+  rewrite Hs in H. right. split; [exact H|]. apply live_true_unseen. exact H.
+Qed.
+
+(* A1 on reachable states *)
+Theorem run_stop_reaches e pre s1 cx st' tr r :
+  stop e (r_st (run e pre s1)) cx = (st', tr, r) ->
+  (forall id, In id (reach e (r_st (run e pre s1))) ->
+              In (TLeafStop id) tr \/ In id (reach_seen e (r_st (run e pre s1)))) /\
+  (forall id, In id (reach e st') -> In id (reach_seen e st')) /\
+  (r <> None -> done_st st').
+Proof.
+  intros H. destruct (run_live e pre s1) as [HD|HL].
+  - rewrite (stop_done e _ cx HD) in H. inv H. unfold reach. rewrite lv_inert by exact HD.
+    split; [intros id []|]. split; [intros id []|congruence].
+  - destruct (stop_reaches e _ _ _ _ _ _ HL H) as (A & B & C & D). auto.
+Qed.
+
+(* ================================================================================================ *)
+(* Part 5: the level a let_value_with_stop_source reacts to is its nesting depth                    *)
+(* ================================================================================================ *)
+Definition un_dep (k : ukind) (d : nat) : nat := if un_own k then S d else d.
+(* node state [ns] belongs to an operation started under d enclosing let_value_with_stop_source operations *)
+Definition dep_is (ns : nst) (d : nat) : Prop := e_ss (n_env ns) = d.
+Lemma dep_is_env ns ns' d : n_env ns' = n_env ns -> dep_is ns d -> dep_is ns' d.
+Proof. unfold dep_is. intros ->. auto. Qed.
+
+(* every node of the state was started under [d] enclosing let_value_with_stop_source operations, d counted
+   statically along the path from the root *)
+Fixpoint dwf (d : nat) (e : sexpr) (st : ost) : Prop :=
+  match e, st with
+  | Un k s, ONode ns sc _ => dep_is ns d /\ dwf (un_dep k d) s sc
+  | Bin k a b, ONode ns sa sb => dep_is ns d /\ dwf d a sa /\ dwf d b sb
+  | _, _ => True
+  end.
+Lemma dwf_inert d e st : inert st -> dwf d e st.
+Proof. destruct st; simpl; try contradiction; intros _; destruct e; exact I. Qed.
+Lemma dwf_fin d e : dwf d e OFin. Proof. destruct e; exact I. Qed.
+Lemma dwf_compl d e a b : dwf d e (OCompl a b). Proof. destruct e; exact I. Qed.
+Lemma dwf_leaf d e c s : dwf d e (OLeaf c s). Proof. destruct e; exact I. Qed.
+Lemma dwf_held d e v : dwf d e (OHeld v). Proof. destruct e; exact I. Qed.
+Lemma dwf_un d k s ns sc sb : dwf d (Un k s) (ONode ns sc sb) = (dep_is ns d /\ dwf (un_dep k d) s sc).
+Proof. reflexivity. Qed.
+Lemma dwf_bin d k a b ns sa sb :
+  dwf d (Bin k a b) (ONode ns sa sb) = (dep_is ns d /\ dwf d a sa /\ dwf d b sb).
+Proof. reflexivity. Qed.
+#[global] Hint Resolve dwf_fin dwf_leaf dwf_compl dwf_held : calcd.
+
+Lemma ss_un k en : e_ss (un_env k en) = un_dep k (e_ss en).
+Proof. destruct k; try reflexivity. destruct q; reflexivity. Qed.
+Lemma after_first_ss k en o en2 sv : after_first k en o = inr (en2, sv) -> e_ss en2 = e_ss en.
+Proof. intros H. apply after_first_env in H. destruct H as [->|[v ->]]; reflexivity. Qed.
+
+Definition StartD (e : sexpr) : Prop := forall en cx st tr r, start e en cx = (st, tr, r) -> dwf (e_ss en) e st.
+Definition StopD (e : sexpr) : Prop := forall d cx st st' tr r, stop e st cx = (st', tr, r) -> dwf d e st -> dwf d e st'.
+Definition LeafevD (e : sexpr) : Prop := forall d cx st id o st' tr r hit,
+  leafev e st id o cx = (st', tr, r, hit) -> dwf d e st -> dwf d e st'.
+
+Lemma un_done_d d k s sc tr o st tr' r : un_done k s sc tr o = (st, tr', r) -> dwf d (Un k s) st.
+Proof. unfold un_done. intros H. destruct (un_result k o). destruct (un_eager k o); inv H; auto with calcd. Qed.
+
+Lemma rep_loop_d dc s sc0 tr0 rr0 :
+  dwf dc s sc0 ->
+  forall rest i i' sc' tr' r',
+  rep_loop s (sc0, tr0, rr0) rest i = (i', (sc', tr', r')) ->
+  (r' = None -> dwf dc s sc') /\ (r' <> None -> inert sc').
+Proof.
+  intros Hq0. induction rest as [|x rest IH]; intros i i' sc' tr' r' H; simpl in H.
+  - inv H. split; [discriminate|intros; exact I].
+  - destruct x.
+    + inv H. split; [discriminate|intros; exact I].
+    + destruct rr0 as [o0|].
+      * destruct o0.
+        -- destruct (rep_loop s (sc0, tr0, Some (OVal v)) rest (S i)) as [i2 [[sc2 tr2] r2]] eqn:Hr.
+           inv H. exact (IH _ _ _ _ _ Hr).
+        -- inv H. split; [discriminate|intros; exact I].
+        -- inv H. split; [discriminate|intros; exact I].
+      * inv H. split; [auto|congruence].
+Qed.
+
+Lemma un_fin_d d k s ns sc tr o sc0 tr0 rr0 st tr' r :
+  dep_is ns d -> dwf (un_dep k d) s sc0 ->
+  un_fin k s ns sc tr o (sc0, tr0, rr0) = (st, tr', r) -> dwf d (Un k s) st.
+Proof.
+  intros Hn Hq0 H. unfold un_fin in H.
+  destruct k; try (eapply un_done_d; eassumption).
+  unfold rep_done in H. destruct o; try (inv H; auto with calcd; fail).
+  destruct (rep_loop s (sc0, tr0, rr0) (skipn (n_iter ns) l) (n_iter ns)) as [i' [[sc' tr2] r2]] eqn:Hr.
+  destruct (rep_loop_d _ _ _ _ _ Hq0 _ _ _ _ _ _ Hr) as (Q & N).
+  destruct r2; injection H as <- <- <-.
+  - apply dwf_inert. apply N. discriminate.
+  - rewrite dwf_un. split; [exact Hn|auto].
+Qed.
+
+Lemma seq_pass_d d k a b sa tr o st tr' r : seq_pass k a sa tr o = (st, tr', r) -> dwf d (Bin k a b) st.
+Proof. unfold seq_pass. intros H. destruct (eager_dtor k); inv H; auto with calcd. Qed.
+Lemma seq_final_d d k a b sb tr o st tr' r : seq_final k b sb tr o = (st, tr', r) -> dwf d (Bin k a b) st.
+Proof. unfold seq_final. intros H. destruct (eager_dtor k); inv H; auto with calcd. Qed.
+
+Lemma retry_err_d d a b sa0 tra0 ra0 sbl trbl rbl :
+  dwf d a sa0 -> dwf d b sbl ->
+  forall rem i sbe trbe rbe e i' p' st' tr' r',
+  dwf d b sbe ->
+  retry_err a b (sa0, tra0, ra0) (sbl, trbl, rbl) rem i (sbe, trbe, rbe) e = (i', p', (st', tr', r')) ->
+  (r' = None -> exists sa sb, st' = OCompl sa sb /\ dwf d a sa /\ dwf d b sb) /\
+  (r' <> None -> inert st').
+Proof.
+  intros Hqa Hql. induction rem as [|rem IH]; intros i sbe trbe rbe e i' p' st' tr' r' Hqe H; simpl in H.
+  - inv H. split; [discriminate|intros; exact I].
+  - destruct rbe as [ob|].
+    + destruct ob.
+      * destruct ra0 as [oa|].
+        -- destruct oa.
+           ++ inv H. split; [discriminate|intros; exact I].
+           ++ destruct (retry_err a b (sa0, tra0, Some (OErr e0)) (sbl, trbl, rbl) rem (S i) (sbl, trbl, rbl) e0)
+                as [[i2 p2] [[st2 tr2] r2]] eqn:Hr.
+              inv H. exact (IH _ _ _ _ _ _ _ _ _ _ Hql Hr).
+           ++ inv H. split; [discriminate|intros; exact I].
+        -- inv H. split; [|congruence]. intros _. exists sa0, OFin. auto with calcd.
+      * inv H. split; [discriminate|intros; exact I].
+      * inv H. split; [discriminate|intros; exact I].
+    + inv H. split; [|congruence]. intros _. exists OFin, sbe. auto with calcd.
+Qed.
+
+Lemma retry_node_d d n a b ns i' p' st' tr' r' tr0 st tr r :
+  dep_is ns d ->
+  (r' = None -> exists sa sb, st' = OCompl sa sb /\ dwf d a sa /\ dwf d b sb) ->
+  (r' <> None -> inert st') ->
+  retry_node ns (i', p', (st', tr', r')) tr0 = (st, tr, r) ->
+  dwf d (Bin (BRetry n) a b) st.
+Proof.
+  intros Hn Q N H. unfold retry_node in H. destruct r' as [o|].
+  - inv H. apply dwf_inert. apply N. discriminate.
+  - destruct (Q eq_refl) as (sa & sb & -> & Qa & Qb). inv H. rewrite dwf_bin. auto.
+Qed.
+
+Lemma rbe_of_d b en oa cx sbe trbe rbe :
+  StartD b -> rbe_of b en oa cx = (sbe, trbe, rbe) -> dwf (e_ss en) b sbe.
+Proof.
+  intros Sb H. unfold rbe_of in H. destruct oa; try (inv H; auto with calcd; fail).
+  exact (Sb _ _ _ _ _ H).
+Qed.
+Lemma r0bl_of_d b en r0a cx sbe trbe rbe :
+  StartD b -> r0bl_of b en r0a cx = (sbe, trbe, rbe) -> dwf (e_ss en) b sbe.
+Proof.
+  intros Sb H. unfold r0bl_of in H. destruct (res_err r0a); try (inv H; auto with calcd; fail).
+  exact (Sb _ _ _ _ _ H).
+Qed.
+
+Lemma a_done_d d k a b ns sa tra oa cx sa0 tra0 ra0 sbl trbl rbl st tr r :
+  is_seq k = true -> StartD b ->
+  dep_is ns d -> dwf d a sa0 -> dwf d b sbl ->
+  a_done k a b ns sa tra oa cx (sa0, tra0, ra0) (sbl, trbl, rbl) = (st, tr, r) ->
+  dwf d (Bin k a b) st.
+Proof.
+  intros Hk Sb Hn Hqa0 Hql H.
+  assert (Gen : match k with BRetry _ => True | _ =>
+      match after_first k (n_env ns) oa with
+      | inl o => seq_pass k a sa tra o
+      | inr (en2, sv) =>
+          let '(sb, trb, rb) := start b en2 cx in
+          match rb with
+          | None => (ONode (ns_set_saved (ns_set_ph ns PSecond) sv) OFin sb, (tra ++ dtor a sa) ++ trb, None)
+          | Some ob => seq_final k b sb ((tra ++ dtor a sa) ++ trb) (after_second k sv ob)
+          end
+      end = (st, tr, r) -> dwf d (Bin k a b) st end).
+  { destruct k; try discriminate Hk; try exact I; intros H'.
+    all: destruct (after_first _ (n_env ns) oa) as [o'|[en2 sv]] eqn:Haf;
+      [eapply seq_pass_d; eassumption|];
+      apply after_first_ss in Haf;
+      destruct (start b en2 cx) as [[sb trb] rb] eqn:Hb;
+      pose proof (Sb _ _ _ _ _ Hb) as Hqb; rewrite Haf in Hqb; rewrite (Hn : e_ss (n_env ns) = d) in Hqb;
+      destruct rb;
+      [eapply seq_final_d; eassumption
+      |injection H' as <- <- <-; rewrite dwf_bin; split; [exact Hn|split; auto with calcd]]. }
+  unfold a_done in H. destruct k; try (exact (Gen H)).
+  clear Gen. unfold retry_a_done in H.
+  destruct oa; try (inv H; auto with calcd; fail).
+  destruct (rbe_of b (n_env ns) (OErr e) cx) as [[sbe trbe] rbe] eqn:Hrbe.
+  pose proof (rbe_of_d _ _ _ _ _ _ _ Sb Hrbe) as Qe. rewrite (Hn : e_ss (n_env ns) = d) in Qe.
+  destruct (retry_err a b (sa0, tra0, ra0) (sbl, trbl, rbl) (n - n_iter ns) (n_iter ns) (sbe, trbe, rbe) e)
+    as [[i' p'] [[st' tr'] r']] eqn:Hr.
+  destruct (retry_err_d d _ _ _ _ _ _ _ _ Hqa0 Hql _ _ _ _ _ _ _ _ _ _ _ Qe Hr) as (Q & N).
+  eapply retry_node_d; [exact Hn|exact Q|exact N|exact H].
+Qed.
+
+Lemma b_done_d d k a b ns sb trb ob sa0 tra0 ra0 sbl trbl rbl st tr r :
+  is_seq k = true ->
+  dep_is ns d -> dwf d a sa0 -> dwf d b sbl ->
+  b_done k a b ns sb trb ob (sa0, tra0, ra0) (sbl, trbl, rbl) = (st, tr, r) ->
+  dwf d (Bin k a b) st.
+Proof.
+  intros Hk Hn Hqa0 Hql H. unfold b_done in H.
+  destruct k; try (eapply seq_final_d; eassumption).
+  unfold retry_b_done in H.
+  destruct ob; try (inv H; auto with calcd; fail).
+  destruct ra0 as [oa|].
+  - destruct oa; try (inv H; auto with calcd; fail).
+    destruct (retry_err a b (sa0, tra0, Some (OErr e)) (sbl, trbl, rbl) (n - n_iter ns) (n_iter ns) (sbl, trbl, rbl) e)
+      as [[i' p'] [[st' tr'] r']] eqn:Hr.
+    destruct (retry_err_d d _ _ _ _ _ _ _ _ Hqa0 Hql _ _ _ _ _ _ _ _ _ _ _ Hql Hr) as (Q & N).
+    eapply retry_node_d; [exact Hn|exact Q|exact N|exact H].
+  - inv H. rewrite dwf_bin. auto with calcd.
+Qed.
+
+Lemma conc_reap_d d k c sc tr r sc' tr' r' :
+  conc_reap k c (sc, tr, r) = (sc', tr', r') -> dwf d c sc -> dwf d c sc'.
+Proof.
+  unfold conc_reap. intros H Hq. destruct k; try (inv H; auto; fail).
+  destruct r as [o|]; [destruct o|]; inv H; auto with calcd.
+Qed.
+
+Lemma finish_d d k a b ns sa sb tr fin st tr' r :
+  finish_conc k a b ns sa sb tr fin false = (st, tr', r) ->
+  dep_is ns d -> dwf d a sa -> dwf d b sb -> dwf d (Bin k a b) st.
+Proof.
+  intros H Hn Ha Hb. destruct fin as [o|].
+  - destruct (finish_some k a b ns sa sb tr o) as (st2 & dd & E & Hi & Hd). rewrite E in H. inv H.
+    apply dwf_inert. exact Hi.
+  - rewrite finish_none in H. inv H. rewrite dwf_bin. auto.
+Qed.
+
+Lemma conc_b_done_d d k a b ns sa sb' tr ob cx st tr' r :
+  StopD a -> dep_is ns d -> dwf d a sa -> dwf d b sb' ->
+  conc_b_done k a b ns sa sb' tr ob cx = (st, tr', r) -> dwf d (Bin k a b) st.
+Proof.
+  intros Pa Hn Ha Hb H. unfold conc_b_done in H.
+  destruct (conc_child_done k ns true ob) as [[ns1 newly] fin] eqn:Hc.
+  apply ccd_spec in Hc. destruct Hc as (He1 & _). apply (dep_is_env _ _ _ He1) in Hn.
+  destruct fin as [o1|].
+  - eapply finish_d; eauto.
+  - destruct newly.
+    + destruct (stop a sa cx) as [[sa0 tra0] ra0] eqn:Hs.
+      pose proof (Pa _ _ _ _ _ _ Hs Ha) as Ha0.
+      destruct (conc_reap k a (sa0, tra0, ra0)) as [[sa' tra] ra] eqn:Hr.
+      pose proof (conc_reap_d _ _ _ _ _ _ _ _ _ Hr Ha0) as Ha'.
+      destruct ra as [oa|].
+      * destruct (conc_child_done k ns1 false oa) as [[ns2 x] fin2] eqn:Hc2.
+        apply ccd_spec in Hc2. destruct Hc2 as (He2 & _). apply (dep_is_env _ _ _ He2) in Hn.
+        eapply finish_d; eauto.
+      * inv H. rewrite dwf_bin. auto.
+    + inv H. rewrite dwf_bin. auto.
+Qed.
+
+Lemma conc_a_done_d d k a b ns sa' sb tr oa cx st tr' r :
+  StopD b -> dep_is ns d -> dwf d a sa' -> dwf d b sb ->
+  conc_a_done k a b ns sa' sb tr oa cx = (st, tr', r) -> dwf d (Bin k a b) st.
+Proof.
+  intros Pb Hn Ha Hb H. unfold conc_a_done in H.
+  destruct (conc_child_done k ns false oa) as [[ns1 newly] fin] eqn:Hc.
+  apply ccd_spec in Hc. destruct Hc as (He1 & _). apply (dep_is_env _ _ _ He1) in Hn.
+  destruct fin as [o1|].
+  - eapply finish_d; eauto.
+  - destruct newly.
+    + destruct (stop b sb cx) as [[sb0 trb0] rb0] eqn:Hs.
+      pose proof (Pb _ _ _ _ _ _ Hs Hb) as Hb0.
+      destruct (conc_reap k b (sb0, trb0, rb0)) as [[sb' trb] rb] eqn:Hr.
+      pose proof (conc_reap_d _ _ _ _ _ _ _ _ _ Hr Hb0) as Hb'.
+      destruct rb as [ob|].
+      * destruct (conc_child_done k ns1 true ob) as [[ns2 x] fin2] eqn:Hc2.
+        apply ccd_spec in Hc2. destruct Hc2 as (He2 & _). apply (dep_is_env _ _ _ He2) in Hn.
+        eapply finish_d; eauto.
+      * inv H. rewrite dwf_bin. auto.
+    + inv H. rewrite dwf_bin. auto.
+Qed.
+
+Lemma start_conc_d k a b en cx st tr r :
+  StartD a -> StopD a -> StartD b ->
+  start_conc k a b en cx = (st, tr, r) -> dwf (e_ss en) (Bin k a b) st.
+Proof.
+  intros Sa Pa Sb H. unfold start_conc in H.
+  destruct (start a (env_own en (e_stopped en)) cx) as [[sa0 tra0] ra0] eqn:Ha.
+  pose proof (Sa _ _ _ _ _ Ha) as Hqa0. change (e_ss (env_own en (e_stopped en))) with (e_ss en) in Hqa0.
+  destruct (conc_reap k a (sa0, tra0, ra0)) as [[sa tra] ra] eqn:Hra.
+  pose proof (conc_reap_d _ _ _ _ _ _ _ _ _ Hra Hqa0) as Hqa.
+  destruct (match ra with
+            | Some oa => conc_child_done k (conc_ns0 en) false oa
+            | None => (conc_ns0 en, false, None) end) as [[ns1 x1] x2] eqn:Hm.
+  assert (Hn1 : dep_is ns1 (e_ss en)).
+  { destruct ra.
+    - apply ccd_spec in Hm. destruct Hm as (He & _). unfold dep_is. rewrite He. reflexivity.
+    - inv Hm. reflexivity. }
+  destruct (start b (env_own en (own_stop ns1)) cx) as [[sb0 trb0] rb0] eqn:Hb.
+  pose proof (Sb _ _ _ _ _ Hb) as Hqb0. change (e_ss (env_own en (own_stop ns1))) with (e_ss en) in Hqb0.
+  destruct (conc_reap k b (sb0, trb0, rb0)) as [[sb trb] rb] eqn:Hrb.
+  pose proof (conc_reap_d _ _ _ _ _ _ _ _ _ Hrb Hqb0) as Hqb.
+  destruct rb as [ob|].
+  - eapply conc_b_done_d; [exact Pa|exact Hn1|exact Hqa|exact Hqb|exact H].
+  - inv H. rewrite dwf_bin. auto.
+Qed.
+
+Lemma opt_stop_d d k c cx (dd : bool) sc sc' tr r :
+  StopD c -> dwf d c sc ->
+  (if dd then (sc, [], None) else conc_reap k c (stop c sc cx)) = (sc', tr, r) -> dwf d c sc'.
+Proof.
+  intros P Hq H. destruct dd; [inv H; auto|].
+  destruct (stop c sc cx) as [[s0 t0] r0] eqn:Hs.
+  pose proof (P _ _ _ _ _ _ Hs Hq) as Q. exact (conc_reap_d _ _ _ _ _ _ _ _ _ H Q).
+Qed.
+
+Lemma stop_conc_d d k a b ns sa sb cx st' tr r :
+  StopD a -> StopD b ->
+  dep_is ns d -> dwf d a sa -> dwf d b sb ->
+  stop_conc k a b ns sa sb cx = (st', tr, r) -> dwf d (Bin k a b) st'.
+Proof.
+  intros Pa Pb Hn Hqa Hqb H. unfold stop_conc in H. cbv zeta in H.
+  change (leaky k) with false in H.
+  destruct (if bdone (ns_set_own (stopped_ns ns) true) then (sb, [], None) else conc_reap k b (stop b sb cx))
+    as [[sb' trb] rb] eqn:Hb.
+  pose proof (opt_stop_d _ _ _ _ _ _ _ _ _ Pb Hqb Hb) as Hqb'.
+  destruct (match rb with
+            | Some ob => conc_child_done k (ns_set_own (stopped_ns ns) true) true ob
+            | None => (ns_set_own (stopped_ns ns) true, false, None) end) as [[ns2 x] fin1] eqn:Hm.
+  assert (Hn2 : dep_is ns2 d).
+  { destruct rb.
+    - apply ccd_spec in Hm. destruct Hm as (He & _). exact (dep_is_env _ _ _ He Hn).
+    - inv Hm. exact Hn. }
+  destruct fin1 as [o1|].
+  - eapply finish_d; eauto.
+  - destruct (if adone ns2 then (sa, [], None) else conc_reap k a (stop a sa cx)) as [[sa' tra] ra] eqn:Ha.
+    pose proof (opt_stop_d _ _ _ _ _ _ _ _ _ Pa Hqa Ha) as Hqa'.
+    destruct (match ra with
+              | Some oa => conc_child_done k ns2 false oa
+              | None => (ns2, false, None) end) as [[ns3 y] fin2] eqn:Hm2.
+    assert (Hn3 : dep_is ns3 d).
+    { destruct ra.
+      - apply ccd_spec in Hm2. destruct Hm2 as (He & _). exact (dep_is_env _ _ _ He Hn2).
+      - inv Hm2. exact Hn2. }
+    eapply finish_d; eauto.
+Qed.
+
+Lemma opt_leafev_d d k c cx (dd : bool) sc id o sc' tr r hit :
+  LeafevD c -> dwf d c sc ->
+  (if dd then ((sc, [], None), false) else reap_ev k c (leafev c sc id o cx)) = ((sc', tr, r), hit) ->
+  dwf d c sc'.
+Proof.
+  intros L Hq H. destruct dd; [inv H; auto|].
+  destruct (leafev c sc id o cx) as [[[s0 t0] r0] h0] eqn:Hs.
+  pose proof (L _ _ _ _ _ _ _ _ _ Hs Hq) as Q.
+  unfold reap_ev in H. simpl in H. injection H as H Hh.
+  exact (conc_reap_d _ _ _ _ _ _ _ _ _ H Q).
+Qed.
+
+Lemma leafev_conc_d d k a b ns sa sb id o cx st' tr r hit :
+  LeafevD a -> LeafevD b -> StopD a -> StopD b ->
+  dep_is ns d -> dwf d a sa -> dwf d b sb ->
+  leafev_conc k a b ns sa sb id o cx = (st', tr, r, hit) -> dwf d (Bin k a b) st'.
+Proof.
+  intros La Lb Pa Pb Hn Hqa Hqb H. unfold leafev_conc in H.
+  destruct (if adone ns then (sa, [], None, false) else reap_ev k a (leafev a sa id o cx))
+    as [[[sa' tra] ra] hita] eqn:Ha.
+  pose proof (opt_leafev_d _ _ _ _ _ _ _ _ _ _ _ _ La Hqa Ha) as Hqa'.
+  destruct hita.
+  - destruct ra as [oa|].
+    + injection H as H Hhit. eapply conc_a_done_d; [exact Pb|exact Hn|exact Hqa'|exact Hqb|exact H].
+    + inv H. rewrite dwf_bin. auto.
+  - destruct (if bdone ns then (sb, [], None, false) else reap_ev k b (leafev b sb id o cx))
+      as [[[sb' trb] rb] hitb] eqn:Hb.
+    pose proof (opt_leafev_d _ _ _ _ _ _ _ _ _ _ _ _ Lb Hqb Hb) as Hqb'.
+    destruct rb as [ob|].
+    + injection H as H Hhit. eapply conc_b_done_d; [exact Pa|exact Hn|exact Hqa|exact Hqb'|exact H].
+    + inv H. rewrite dwf_bin. auto.
+Qed.
+
+Lemma all_d e : StartD e /\ StopD e /\ LeafevD e.
+Proof.
+  induction e as [v|x| |n|id|id|id c|id lvl| |k s IH|k a IHa b IHb];
+    try (split; [|split];
+         [intros en cx st tr r H; destruct st; exact I
+         |intros d cx st st' tr r H Hq; destruct st'; exact I
+         |intros d cx st i o st' tr r hit H Hq; destruct st'; exact I]).
+  - (* Un *)
+    destruct IH as (Ss & Ps & Ls). split; [|split].
+    + intros en cx st tr r H. rewrite start_un in H.
+      destruct (start s (un_env k en) cx) as [[sc tr1] r1] eqn:Hs.
+      pose proof (Ss _ _ _ _ _ Hs) as Hq. rewrite ss_un in Hq.
+      destruct r1 as [o1|].
+      * eapply un_fin_d; [|exact Hq|exact H]. unfold dep_is. destruct k; reflexivity.
+      * inv H. rewrite dwf_un. split; [unfold dep_is; destruct k; reflexivity|exact Hq].
+    + intros d cx st st' tr r H Hq.
+      destruct st as [|c sn|ns sc sb|sa sb|vv];
+        [rewrite stop_fin in H; inv H; auto with calcd
+        |simpl in H; inv H; auto with calcd
+        |
+        |rewrite stop_inert_st in H by exact I; inv H; auto with calcd
+        |simpl in H; inv H; auto with calcd].
+      rewrite dwf_un in Hq. destruct Hq as [Hn Hq].
+      destruct (is_unst k) eqn:Hk.
+      * apply is_unst_true in Hk. subst k. rewrite stop_un_unst in H. inv H. rewrite dwf_un. auto.
+      * rewrite stop_un in H by exact Hk. unfold stop_un_body in H.
+        destruct (un_own k && own_stop ns)%bool.
+        { inv H. rewrite dwf_un. auto. }
+        set (ns2 := if un_own k then ns_set_own (stopped_ns ns) true else stopped_ns ns) in H.
+        assert (Hn2 : dep_is ns2 d) by (unfold ns2; destruct (un_own k); exact Hn).
+        clearbody ns2.
+        destruct (stop s sc cx) as [[sc' tr1] r1] eqn:Hs.
+        pose proof (Ps _ _ _ _ _ _ Hs Hq) as Hq'.
+        destruct r1 as [o1|].
+        -- destruct (start s (un_env k (n_env ns2)) cx) as [[sc0 tr0] rr0] eqn:H0.
+           pose proof (Ss _ _ _ _ _ H0) as Hq0. rewrite ss_un in Hq0. rewrite (Hn2 : e_ss (n_env ns2) = d) in Hq0.
+           eapply un_fin_d; [exact Hn2|exact Hq0|exact H].
+        -- inv H. rewrite dwf_un. auto.
+    + intros d cx st i o st' tr r hit H Hq.
+      destruct st as [|c sn|ns sc sb|sa sb|vv];
+        [rewrite leafev_fin in H; inv H; auto with calcd
+        |simpl in H; inv H; auto with calcd
+        |
+        |rewrite leafev_inert_st in H by exact I; inv H; auto with calcd
+        |simpl in H; inv H; auto with calcd].
+      rewrite dwf_un in Hq. destruct Hq as [Hn Hq].
+      rewrite leafev_un in H. unfold leafev_un_body in H.
+      destruct (leafev s sc i o cx) as [[[sc' tr1] r1] h1] eqn:Hs.
+      pose proof (Ls _ _ _ _ _ _ _ _ _ Hs Hq) as Hq'.
+      destruct r1 as [o1|].
+      * injection H as H Hh.
+        destruct (start s (un_env k (n_env ns)) cx) as [[sc0 tr0] rr0] eqn:H0.
+        pose proof (Ss _ _ _ _ _ H0) as Hq0. rewrite ss_un in Hq0. rewrite (Hn : e_ss (n_env ns) = d) in Hq0.
+        eapply un_fin_d; [exact Hn|exact Hq0|exact H].
+      * destruct (un_own k && fired (e_ss (n_env ns)) tr1)%bool eqn:Hf.
+        2:{ inv H. rewrite dwf_un. auto. }
+        unfold fired_body in H.
+        destruct (if own_stop ns then (ns, (sc', [], None)) else (ns_set_own ns true, stop s sc' cx))
+          as [ns1 [[sc1 tr2] r2]] eqn:Hm.
+        assert (Hm' : dep_is ns1 d /\ dwf (un_dep k d) s sc1).
+        { destruct (own_stop ns).
+          - inv Hm. auto.
+          - destruct (stop s sc' cx) as [[sc1' tr2'] r2'] eqn:Hst. inv Hm.
+            split; [exact Hn|]. exact (Ps _ _ _ _ _ _ Hst Hq'). }
+        destruct Hm' as (Hn1 & Hq1).
+        destruct r2 as [oc|].
+        -- injection H as H Hh. eapply un_done_d; exact H.
+        -- destruct (leafev s sc1 i o cx) as [[[sc3 tr3] r3] h3] eqn:Hs3.
+           pose proof (Ls _ _ _ _ _ _ _ _ _ Hs3 Hq1) as Hq3.
+           destruct r3 as [oc|].
+           ++ injection H as H Hh. eapply un_done_d; exact H.
+           ++ inv H. rewrite dwf_un. auto.
+  - (* Bin *)
+    destruct IHa as (Sa & Pa & La). destruct IHb as (Sb & Pb & Lb).
+    destruct (is_seq k) eqn:Hk.
+    + assert (R0 : forall en cx sa0 tra0 ra0 sbl trbl rbl,
+                 start a en cx = (sa0, tra0, ra0) ->
+                 r0bl_of b en (sa0, tra0, ra0) cx = (sbl, trbl, rbl) ->
+                 dwf (e_ss en) a sa0 /\ dwf (e_ss en) b sbl).
+      { intros en cx sa0 tra0 ra0 sbl trbl rbl E1 E2. split; [exact (Sa _ _ _ _ _ E1)|].
+        exact (r0bl_of_d _ _ _ _ _ _ _ Sb E2). }
+      split; [|split].
+      * intros en cx st tr r H. rewrite start_bin_seq in H by exact Hk. unfold start_seq in H.
+        destruct (start a en cx) as [[sa tra] ra] eqn:Ha.
+        pose proof (Sa _ _ _ _ _ Ha) as Hqa.
+        destruct ra as [oa|].
+        -- destruct (rbe_of b en oa cx) as [[sbl trbl] rbl] eqn:Hrb.
+           pose proof (rbe_of_d _ _ _ _ _ _ _ Sb Hrb) as Ql.
+           eapply a_done_d with (ns := mk_nst PFirst en); [exact Hk|exact Sb|reflexivity|exact Hqa|exact Ql|exact H].
+        -- inv H. rewrite dwf_bin. split; [reflexivity|]. split; auto with calcd.
+      * intros d cx st st' tr r H Hq.
+        destruct st as [|c sn|ns sa sb|sa sb|vv];
+          [rewrite stop_fin in H; inv H; auto with calcd
+          |simpl in H; inv H; auto with calcd
+          |
+          |rewrite stop_inert_st in H by exact I; inv H; auto with calcd
+          |simpl in H; inv H; auto with calcd].
+        rewrite dwf_bin in Hq. destruct Hq as (Hn & Hqa & Hqb).
+        rewrite stop_bin, Hk in H.
+        destruct (ph ns).
+        -- unfold stop_seq1 in H. destruct (stop a sa cx) as [[sa' tra] ra] eqn:Ha.
+           pose proof (Pa _ _ _ _ _ _ Ha Hqa) as Hqa'.
+           destruct ra as [oa|].
+           ++ destruct (start a (n_env (stopped_ns ns)) cx) as [[sa0 tra0] ra0] eqn:E1.
+              destruct (r0bl_of b (n_env (stopped_ns ns)) (sa0, tra0, ra0) cx) as [[sbl trbl] rbl] eqn:E2.
+              destruct (R0 _ _ _ _ _ _ _ _ E1 E2) as (Q1 & Q2). change (e_ss (n_env (stopped_ns ns))) with (e_ss (n_env ns)) in Q1, Q2.
+              rewrite (Hn : e_ss (n_env ns) = d) in Q1, Q2.
+              eapply a_done_d with (ns := stopped_ns ns); [exact Hk|exact Sb|exact Hn|exact Q1|exact Q2|exact H].
+           ++ inv H. rewrite dwf_bin. auto.
+        -- unfold stop_seq2 in H. destruct (stop b sb cx) as [[sb' trb] rb] eqn:Hb.
+           pose proof (Pb _ _ _ _ _ _ Hb Hqb) as Hqb'.
+           destruct rb as [ob|].
+           ++ destruct (start a (n_env (stopped_ns ns)) cx) as [[sa0 tra0] ra0] eqn:E1.
+              destruct (r0bl_of b (n_env (stopped_ns ns)) (sa0, tra0, ra0) cx) as [[sbl trbl] rbl] eqn:E2.
+              destruct (R0 _ _ _ _ _ _ _ _ E1 E2) as (Q1 & Q2). change (e_ss (n_env (stopped_ns ns))) with (e_ss (n_env ns)) in Q1, Q2.
+              rewrite (Hn : e_ss (n_env ns) = d) in Q1, Q2.
+              eapply b_done_d with (ns := stopped_ns ns); [exact Hk|exact Hn|exact Q1|exact Q2|exact H].
+           ++ inv H. rewrite dwf_bin. auto.
+        -- unfold stop_seq2 in H. destruct (stop b sb cx) as [[sb' trb] rb] eqn:Hb.
+           pose proof (Pb _ _ _ _ _ _ Hb Hqb) as Hqb'.
+           destruct rb as [ob|].
+           ++ destruct (start a (n_env (stopped_ns ns)) cx) as [[sa0 tra0] ra0] eqn:E1.
+              destruct (r0bl_of b (n_env (stopped_ns ns)) (sa0, tra0, ra0) cx) as [[sbl trbl] rbl] eqn:E2.
+              destruct (R0 _ _ _ _ _ _ _ _ E1 E2) as (Q1 & Q2). change (e_ss (n_env (stopped_ns ns))) with (e_ss (n_env ns)) in Q1, Q2.
+              rewrite (Hn : e_ss (n_env ns) = d) in Q1, Q2.
+              eapply b_done_d with (ns := stopped_ns ns); [exact Hk|exact Hn|exact Q1|exact Q2|exact H].
+           ++ inv H. rewrite dwf_bin. auto.
+      * intros d cx st i o st' tr r hit H Hq.
+        destruct st as [|c sn|ns sa sb|sa sb|vv];
+          [rewrite leafev_fin in H; inv H; auto with calcd
+          |simpl in H; inv H; auto with calcd
+          |
+          |rewrite leafev_inert_st in H by exact I; inv H; auto with calcd
+          |simpl in H; inv H; auto with calcd].
+        rewrite dwf_bin in Hq. destruct Hq as (Hn & Hqa & Hqb).
+        rewrite leafev_bin_seq in H by exact Hk.
+        destruct (ph ns).
+        -- unfold leafev_seq1 in H. destruct (leafev a sa i o cx) as [[[sa' tra] ra] h1] eqn:Ha.
+           pose proof (La _ _ _ _ _ _ _ _ _ Ha Hqa) as Hqa'.
+           destruct ra as [oa|].
+           ++ injection H as H Hh.
+              destruct (start a (n_env ns) cx) as [[sa0 tra0] ra0] eqn:E1.
+              destruct (r0bl_of b (n_env ns) (sa0, tra0, ra0) cx) as [[sbl trbl] rbl] eqn:E2.
+              destruct (R0 _ _ _ _ _ _ _ _ E1 E2) as (Q1 & Q2). rewrite (Hn : e_ss (n_env ns) = d) in Q1, Q2.
+              eapply a_done_d; [exact Hk|exact Sb|exact Hn|exact Q1|exact Q2|exact H].
+           ++ inv H. rewrite dwf_bin. auto.
+        -- unfold leafev_seq2 in H. destruct (leafev b sb i o cx) as [[[sb' trb] rb] h1] eqn:Hb.
+           pose proof (Lb _ _ _ _ _ _ _ _ _ Hb Hqb) as Hqb'.
+           destruct rb as [ob|].
+           ++ injection H as H Hh.
+              destruct (start a (n_env ns) cx) as [[sa0 tra0] ra0] eqn:E1.
+              destruct (r0bl_of b (n_env ns) (sa0, tra0, ra0) cx) as [[sbl trbl] rbl] eqn:E2.
+              destruct (R0 _ _ _ _ _ _ _ _ E1 E2) as (Q1 & Q2). rewrite (Hn : e_ss (n_env ns) = d) in Q1, Q2.
+              eapply b_done_d; [exact Hk|exact Hn|exact Q1|exact Q2|exact H].
+           ++ inv H. rewrite dwf_bin. auto.
+        -- unfold leafev_seq2 in H. destruct (leafev b sb i o cx) as [[[sb' trb] rb] h1] eqn:Hb.
+           pose proof (Lb _ _ _ _ _ _ _ _ _ Hb Hqb) as Hqb'.
+           destruct rb as [ob|].
+           ++ injection H as H Hh.
+              destruct (start a (n_env ns) cx) as [[sa0 tra0] ra0] eqn:E1.
+              destruct (r0bl_of b (n_env ns) (sa0, tra0, ra0) cx) as [[sbl trbl] rbl] eqn:E2.
+              destruct (R0 _ _ _ _ _ _ _ _ E1 E2) as (Q1 & Q2). rewrite (Hn : e_ss (n_env ns) = d) in Q1, Q2.
+              eapply b_done_d; [exact Hk|exact Hn|exact Q1|exact Q2|exact H].
+           ++ inv H. rewrite dwf_bin. auto.
+    + split; [|split].
+      * intros en cx st tr r H. rewrite start_bin_conc in H by exact Hk.
+        eapply start_conc_d; [exact Sa|exact Pa|exact Sb|exact H].
+      * intros d cx st st' tr r H Hq.
+        destruct st as [|c sn|ns sa sb|sa sb|vv];
+          [rewrite stop_fin in H; inv H; auto with calcd
+          |simpl in H; inv H; auto with calcd
+          |
+          |rewrite stop_inert_st in H by exact I; inv H; auto with calcd
+          |simpl in H; inv H; auto with calcd].
+        rewrite dwf_bin in Hq. destruct Hq as (Hn & Hqa & Hqb).
+        rewrite stop_bin, Hk in H.
+        destruct (own_stop ns).
+        -- inv H. rewrite dwf_bin. auto.
+        -- eapply stop_conc_d; [exact Pa|exact Pb|exact Hn|exact Hqa|exact Hqb|exact H].
+      * intros d cx st i o st' tr r hit H Hq.
+        destruct st as [|c sn|ns sa sb|sa sb|vv];
+          [rewrite leafev_fin in H; inv H; auto with calcd
+          |simpl in H; inv H; auto with calcd
+          |
+          |rewrite leafev_inert_st in H by exact I; inv H; auto with calcd
+          |simpl in H; inv H; auto with calcd].
+        rewrite dwf_bin in Hq. destruct Hq as (Hn & Hqa & Hqb).
+        rewrite leafev_bin_conc in H by exact Hk.
+        eapply leafev_conc_d; [exact La|exact Lb|exact Pa|exact Pb|exact Hn|exact Hqa|exact Hqb|exact H].
+Qed.
+
+(* every reachable state: each node was started under as many let_value_with_stop_source operations as
+   enclose it in the expression; so the source a TReqStop of level lvl fires is the one of the lvl-th
+   enclosing let_value_with_stop_source (0 = outermost) *)
+Theorem run_depth e pre script : dwf 0 e (r_st (run e pre script)).
+Proof.
+  apply (run_invariant e pre (fun rs => dwf 0 e (r_st rs))).
+  - unfold run_start. destruct (start e (root_env pre) 0) as [[st tr] r] eqn:H.
+    rewrite absorb_st. exact (proj1 (all_d e) _ _ _ _ _ H).
+  - intros rs ev HI. unfold run_ev. destruct ev as [id o cx|cx|c].
+    + destruct (leafev e (r_st rs) id o cx) as [[[st tr] r] hit] eqn:H. destruct hit.
+      * rewrite absorb_st. exact (proj2 (proj2 (all_d e)) _ _ _ _ _ _ _ _ _ H HI).
+      * exact HI.
+    + destruct (r_stopped rs); [exact HI|].
+      destruct (stop e (r_st rs) cx) as [[st tr] r] eqn:H.
+      rewrite absorb_st. exact (proj1 (proj2 (all_d e)) _ _ _ _ _ _ H HI).
+    + destruct (dequeue c (r_queue rs)) as [[id q']|]; [|exact HI].
+      destruct (leafev e (r_st rs) id (OVal 0%Z) c) as [[[st tr] r] hit] eqn:H. destruct hit.
+      * rewrite absorb_st. exact (proj2 (proj2 (all_d e)) _ _ _ _ _ _ _ _ _ H HI).
+      * exact HI.
+Qed.
+
+Lemma dwf_letss d now s ns sc sb :
+  dwf d (Un (ULetSS now) s) (ONode ns sc sb) -> e_ss (n_env ns) = d /\ dwf (S d) s sc.
+Proof. exact (fun H => H). Qed.
+
+(* the callable of LeafR id lvl requests stop on level lvl; the request is the last event of the call until the
+   matching let_value_with_stop_source reacts to it *)
+Lemma leafr_requests id lvl seen v cx :
+  leafev (LeafR id lvl) (OLeaf false seen) id (OVal v) cx = ((OHeld v, [TReqStop id lvl], None), true) /\
+  fired lvl [TReqStop id lvl] = true.
+Proof. unfold fired. simpl. rewrite !Nat.eqb_refl. split; reflexivity. Qed.
+
+(* ================================================================================================ *)
+(* Part 6: with_scheduler_affinity's hop back cannot be cancelled (C11)                             *)
+(* ================================================================================================ *)
+(* wsa_via = finally(s, unstoppable(schedule(c))): in a live state the schedule() operation never sees a stop
+   request, so the root completes - on c, [wsa_via_completes_on_ctx] - with the held result of s, whatever
+   was requested in between (via, whose hop is stoppable, may replace it by done: [via_result]) *)
+Theorem wsa_via_result id c s tok ns sa sb i o cx st tr oc hit :
+  live tok (wsa_via id c s) (ONode ns sa sb) ->
+  leafev (wsa_via id c s) (ONode ns sa sb) i o cx = (st, tr, Some oc, hit) ->
+  i = id /\ ph ns <> PFirst /\ (saved ns = Some oc \/ (saved ns = None /\ oc = OVal 0%Z)).
+Proof.
+  intros HL H.
+  assert (Hi : i = id).
+  { apply (finally_leafev_some s (Un UUnstoppable (Sched id c)) id (ONode ns sa sb) i o cx (hop_unst_sched id c)).
+    fold (wsa_via id c s). rewrite H. simpl. congruence. }
+  subst i. split; [reflexivity|]. unfold wsa_via in H, HL. rewrite leafev_bin_seq in H by reflexivity.
+  destruct (ph ns) eqn:Eph.
+  - exfalso. unfold leafev_seq1 in H. destruct (leafev s sa id o cx) as [[[sa' tra] ra] hh].
+    destruct ra; [|discriminate H].
+    pose proof (finally_a_done s (Un UUnstoppable (Sched id c)) id ns sa' tra o0 cx (start s (n_env ns) cx)
+                  (r0bl_of (Un UUnstoppable (Sched id c)) (n_env ns) (start s (n_env ns) cx) cx) (hop_unst_sched id c)) as Hn.
+    apply (f_equal (fun x => snd (fst x))) in H. cbn [fst snd] in H. rewrite Hn in H. discriminate H.
+  - split; [discriminate|].
+    rewrite live_seq2 in HL by (try reflexivity; congruence). destruct HL as [_ HL].
+    destruct sb as [|cc sn|ns' sc sb'|? ?|?]; try contradiction HL.
+    rewrite live_un in HL. destruct HL as (_ & _ & HL). unfold un_tok in HL. simpl in HL.
+    destruct sc as [|cc seen| | |]; try contradiction HL. destruct HL as [-> ->].
+    unfold leafev_seq2 in H. rewrite leafev_un in H. unfold leafev_un_body in H.
+    simpl in H. rewrite Nat.eqb_refl in H. unfold un_fin, un_done, b_done, seq_final in H. simpl in H.
+    injection H as _ _ Ho _. destruct (saved ns); [left|right; split]; congruence.
+  - split; [discriminate|].
+    rewrite live_seq2 in HL by (try reflexivity; congruence). destruct HL as [_ HL].
+    destruct sb as [|cc sn|ns' sc sb'|? ?|?]; try contradiction HL.
+    rewrite live_un in HL. destruct HL as (_ & _ & HL). unfold un_tok in HL. simpl in HL.
+    destruct sc as [|cc seen| | |]; try contradiction HL. destruct HL as [-> ->].
+    unfold leafev_seq2 in H. rewrite leafev_un in H. unfold leafev_un_body in H.
+    simpl in H. rewrite Nat.eqb_refl in H. unfold un_fin, un_done, b_done, seq_final in H. simpl in H.
+    injection H as _ _ Ho _. destruct (saved ns); [left|right; split]; congruence.
+Qed.
+
+(* ... on the states a run reaches *)
+Theorem wsa_via_run_result id c s pre s1 ns sa sb i o cx st tr oc hit :
+  r_st (run (wsa_via id c s) pre s1) = ONode ns sa sb ->
+  leafev (wsa_via id c s) (ONode ns sa sb) i o cx = (st, tr, Some oc, hit) ->
+  i = id /\ ph ns <> PFirst /\ (saved ns = Some oc \/ (saved ns = None /\ oc = OVal 0%Z)).
+Proof.
+  intros E H. destruct (run_live (wsa_via id c s) pre s1) as [HD|HL]; rewrite E in *; [contradiction HD|].
+  eapply wsa_via_result; eassumption.
+Qed.
+
+(* ================================================================================================ *)
+(* Part 7: A5 - prompt completion                                                                   *)
+(* ================================================================================================ *)
+(* what an uncompleted operation is waiting for: running harness leaves (also below unstoppable), LeafR
+   callables in progress, queued schedule() operations *)
+Fixpoint pending (e : sexpr) (st : ost) : list nat :=
+  match e, st with
+  | Leaf id, OLeaf false _ => [id]
+  | LeafN id, OLeaf false _ => [id]
+  | LeafR id _, OLeaf false _ => [id]
+  | LeafR id _, OHeld _ => [id]
+  | Sched id _, OLeaf false _ => [id]
+  | Un k s, ONode _ sc _ => pending s sc
+  | Bin k a b, ONode ns sa sb =>
+      if is_seq k then
+        match ph ns with PFirst => pending a sa | _ => pending b sb end
+      else pending a sa ++ pending b sb
+  | _, _ => []
+  end.
+
+Lemma live_pending e : forall tok st, live tok e st -> pending e st <> [].
+Proof.
+  induction e; intros tok st H; destruct st as [|cc ss|ns sa sb|sa sb|vv]; simpl in *; try contradiction;
+    try (match type of H with _ = _ /\ _ => destruct H as [Hc _]; subst; discriminate end); try discriminate.
+  - destruct H as (_ & _ & H). exact (IHe _ _ H).
+  - destruct H as [_ H]. destruct (is_seq k).
+    + destruct (ph ns); [exact (IHe1 _ _ H)|exact (IHe2 _ _ H)|exact (IHe2 _ _ H)].
+    + destruct H as (_ & Ha & Hb & Hd). intros E. apply app_eq_nil in E. destruct E as [Ea Eb].
+      destruct (adone ns); [destruct (bdone ns); [discriminate|]|].
+      * exact (IHe2 _ _ Hb Eb).
+      * exact (IHe1 _ _ Ha Ea).
+Qed.
+
+(* a stop request on a live operation either completes it, or leaves it waiting for something that does not
+   react to stop (an inert leaf, a leaf below unstoppable, a queued schedule() item) *)
+Theorem stop_prompt e tok st cx st' tr r :
+  live tok e st -> stop e st cx = (st', tr, r) ->
+  (r = None -> pending e st' <> []) /\ (r <> None -> done_st st').
+Proof.
+  intros HL H. destruct (stop_reaches e _ _ _ _ _ _ HL H) as (_ & _ & L1 & L2).
+  split; [|exact L2]. intros E. eapply live_pending. exact (L1 E).
 Qed.
